@@ -2,7 +2,10 @@
 
 package components
 
-import "github.com/preslavrachev/gomjml/mjml/options"
+import (
+	"github.com/preslavrachev/gomjml/mjml/options"
+	"github.com/preslavrachev/gomjml/parser"
+)
 
 // Exports for the verification harness.
 
@@ -25,3 +28,18 @@ func VerifMergeInlineStyleValues(existing, inline string) string {
 
 // VerifFindTagEnd exposes findTagEnd.
 func VerifFindTagEnd(value string, start int) int { return findTagEnd(value, start) }
+
+// VerifTextInner runs mj-text's content pipeline (white-space collapsing, trimming, entity restoring, void-tag
+// normalisation) on a text the parser would hand over as the element's single character-data part.
+func VerifTextInner(text string) string {
+	node := &parser.MJMLNode{Text: text}
+	if text != "" {
+		node.MixedContent = []parser.MixedContentPart{{Text: text}}
+	}
+	c := &MJTextComponent{BaseComponent: &BaseComponent{Node: node, RenderOpts: &options.RenderOpts{}}}
+	inner, _ := c.buildRawInnerHTML()
+	return inner
+}
+
+// VerifNormalizeVoidHTMLTags exposes normalizeVoidHTMLTags.
+func VerifNormalizeVoidHTMLTags(html string) string { return normalizeVoidHTMLTags(html) }
